@@ -2,6 +2,9 @@ package props
 
 import (
 	"bytes"
+
+	"github.com/yuin/goldmark/parser"
+
 	"fmt"
 	"strings"
 	"sync"
@@ -173,6 +176,72 @@ func runC11(r *core.Run) {
 	}
 	for _, e := range c11Exts {
 		c11Structured(r, e.name, core.MustCfg("core"), core.MustCfg("x:"+e.name))
+	}
+	// one parser.Context (parser.WithContext) shared by a run of conversions: first a document that uses the extension's
+	// syntax (and every other extension's), then trigger-free documents of the corpus, with and without the extension
+	{
+		rich := []byte("x[^1] ~~s~~ www.a.bc \"q\" -- a@b.cd\n\n[^1]: n\n\n|a|b|\n|:-|-:|\n|c|d|\n\n- [ ] t\n\nT\n: d\n")
+		docs := c12StructuredDocs(r.Quick())
+		for _, e := range c11Exts {
+			base, with := core.MustCfg("core"), core.MustCfg("x:"+e.name)
+			var keep [][]byte
+			for _, d := range docs {
+				if !c11DocTrigger(e.name, d) {
+					keep = append(keep, d)
+				}
+			}
+			s := r.Sub("shared-context/"+e.name, fmt.Sprintf("on each side (core, core + %s) one instance and one parser.Context passed through parser.WithContext: first a document full of extension syntax, then each of %d trigger-free corpus documents (a new context after every 8): same bytes with and without the extension", e.name, len(keep)))
+			s.Planned = int64(len(keep))
+			s.Bound = fmt.Sprintf("%d documents", len(keep))
+			nchunk := (len(keep) + 7) / 8
+			core.ForEachIndex(nchunk, core.Workers(), func(w int) func(int) {
+				mb, mw := base.New(), with.New()
+				var bb, bw bytes.Buffer
+				return func(ci int) {
+					pb, pw := parser.NewContext(), parser.NewContext()
+					hist := []string{"ctx := parser.NewContext()", "Convert(" + core.Q(rich) + ", WithContext(ctx))"}
+					conv := func(d []byte) (ok bool) {
+						bb.Reset()
+						bw.Reset()
+						var pan any
+						var e1, e2 error
+						func() {
+							defer func() { pan = recover() }()
+							e1 = mb.Convert(d, &bb, parser.WithContext(pb))
+							e2 = mw.Convert(d, &bw, parser.WithContext(pw))
+						}()
+						if pan != nil || e1 != nil || e2 != nil {
+							s.Violate("convert-failed:shared-context", with.String(), d, hist, fmt.Sprint("panic=", pan, " err=", e1, e2), "", "")
+							mb, mw = base.New(), with.New()
+							return false
+						}
+						return true
+					}
+					if !conv(rich) {
+						return
+					}
+					for k := ci * 8; k < ci*8+8 && k < len(keep); k++ {
+						d := keep[k]
+						hist = append(hist, "Convert("+core.Q(d)+", WithContext(ctx))")
+						if !conv(d) {
+							return
+						}
+						s.Evals.Add(2)
+						if !bytes.Equal(bb.Bytes(), bw.Bytes()) {
+							s.Violate("ext-not-conservative:"+e.name+":shared-context", with.String(), d, hist, "with one parser.Context per side, enabling "+e.name+" changes the output of a document without its trigger characters", bb.String(), bw.String())
+							return
+						}
+						s.Distinct(core.Hash(d))
+					}
+					if ci%(nchunk/4+1) == 0 && ci*8 < len(keep) {
+						s.AddSample(core.Q(keep[ci*8]))
+					}
+				}
+			}, r.Expired)
+			s.States.Store(int64(len(keep)))
+			s.Transitions.Store(s.Evals.Load())
+			s.Done()
+		}
 	}
 	for _, e := range c11OptExts {
 		toks := core.Without(c11AlphaFor(e.name), e.trigger)
